@@ -216,6 +216,20 @@ func VerifHarness_C10_update() {
 	}
 	s.vCheckHead(fc)
 	{
+		// the search query keeps working on the pruned array and lists only retained blocks
+		non, canon, serr := fc.Search(NodeRef{Root: s.pool[s.nodes[anchor].root], Slot: Slot(s.nodes[anchor].slot)}, nil, nil)
+		zzverif.Assert(serr == nil, "after pruning, Search from the finalized node succeeds")
+		for _, r := range append(append([]NodeRef(nil), non...), canon...) {
+			idx := -1
+			for i, n := range s.nodes {
+				if s.pool[n.root] == r.Root && Slot(n.slot) == r.Slot {
+					idx = i
+				}
+			}
+			zzverif.Assert(idx >= 0 && s.inT(idx, anchor) && s.nodes[idx].block, "after pruning, Search lists only block nodes retained in the finalized subtree")
+		}
+	}
+	{
 		v := nVal - 1 - zzverif.Choose(zzverif.Param("vote_validators", 1))
 		var cands []int
 		for i := range s.nodes {
